@@ -5664,7 +5664,9 @@ class CodegenCtx:
             if intexpr.ref.holds_a(OutputStorageType.STR) and not ProgramData.do(ProgramFlag.STRINGS_AS_U8):
                 # an indexed byte is a value 0-255 whatever the element type of the string is
                 text = f"((uint8_t){text})"
-            size_str = self._generate_buflike_length_expr(intexpr.ref)
+            # the range check is against the current length: what lies between the length and the capacity is stale or
+            # uninitialised, and differs with where the buffer lives
+            size_str = f"state->{intexpr.ref.name}_counter"
             if ProgramData.do(ProgramFlag.UNSAFE_STRING_INDEXING):
                 return text
             if ProgramData.do(ProgramFlag.ALLOCATE_STR_SPACE_DYNAMIC_ON_DEMAND) and self._is_dynamic(intexpr.ref):
